@@ -378,6 +378,12 @@ func checkXzWriter(prop string) func(a *checkArgs, r *Result) error {
 			cases = append(cases, xzCase{Op: "xzwrite", Name: fmt.Sprintf("corpus/opsfit filler=%d", f), Cfg: xzCfg{LC: 3, PB: 2, DictCap: 8 << 20, BufSize: 4096},
 				Data: fmt.Sprintf("@opsfit:%d", f), Parts: []int{len(caseData(fmt.Sprintf("@opsfit:%d", f)))}})
 		}
+		// barely compressible data: the raw and the LZMA form of every chunk are nearly the same size
+		for i := 0; i < 6; i++ {
+			d := genBarely(rng, 140000+rng.Intn(80000))
+			c := xzCfg{LC: 3, PB: 2, DictCap: []int{1 << 20, 8 << 20, 65536}[i%3], BufSize: 4096, Matcher: 0}
+			cases = append(cases, xzCase{Op: "xzwrite", Name: fmt.Sprintf("barely/%d", len(d)), Cfg: c, Data: hxe(d), Parts: []int{len(d)}})
+		}
 		for i := 0; i < big*2; i++ { // regime switches: several raw chunks, then compressible data, and back
 			var d []byte
 			for k := 0; k < 2+rng.Intn(3); k++ {
